@@ -150,7 +150,8 @@ def search(ctx):
                     seen.add((modname, 'gridexc'))
                     fails.append({'module': modname, 'cell': cell, 'class': 'exc', 'what': 'raised %s: %s' % (type(e).__name__, e), 'replay': '%s.reduce_cell(%r)' % (modname, cell)})
     # needle-shaped lattices (2*v1 must not be taken as the second vector) and obtuse triclinic results
-    for cell in ([2.0, 9.0, 11.0, 90.0, 90.0, 90.0], [2.5, 8.0, 8.5, 90.0, 90.0, 90.0], [3.0, 7.5, 16.0, 90.0, 90.0, 90.0]):
+    for cell in ([2.0, 9.0, 11.0, 90.0, 90.0, 90.0], [2.5, 8.0, 8.5, 90.0, 90.0, 90.0], [3.0, 7.5, 16.0, 90.0, 90.0, 90.0], [3.0, 3.5, 350.0, 90.0, 90.0, 90.0],
+                 [3.073, 5.323, 989.6, 90.0, 90.0, 90.0], [0.31, 0.35, 0.4, 90.0, 90.0, 90.0], [300.0, 350.0, 4000.0, 90.0, 90.0, 90.0], [2.0, 250.0, 2.5, 90.0, 90.0, 90.0], [900.0, 3.0, 4.0, 90.0, 90.0, 90.0]):
         for modname, mod in (('tools', tools), ('laue', laue)):
             try:
                 red = np.asarray(mod.reduce_cell(cell), float)
@@ -159,6 +160,10 @@ def search(ctx):
                     if (modname, 'needle') not in seen:
                         seen.add((modname, 'needle'))
                         fails.append({'module': modname, 'cell': cell, 'class': 'volume', 'what': 'needle-shaped cell %r reduced to %r' % (cell, red.tolist()), 'replay': 'needle'})
+                elif (max(abs(x - y) for x, y in zip(sorted(red[:3]), sorted(cell[:3]))) > 1e-6 * max(cell[:3]) or max(abs(x - 90.0) for x in red[3:]) > 1e-6) and (modname, 'needle-lattice') not in seen:
+                    # the reduced basis of an orthogonal lattice with distinct axis lengths is the three axes themselves
+                    seen.add((modname, 'needle-lattice'))
+                    fails.append({'module': modname, 'cell': cell, 'class': 'lattice:orthogonal', 'what': 'orthogonal cell %r reduced to %r, which is not a basis of the same lattice' % (cell, [round(float(x), 4) for x in red]), 'replay': 'needle'})
             except Exception as e:
                 fails.append({'module': modname, 'cell': cell, 'class': 'exc', 'what': 'raised %s' % type(e).__name__, 'replay': 'needle'})
     return fails
